@@ -297,7 +297,9 @@ fn find_vars(name: &str, proc_name: &str, program: &Program) -> Vec<Identifier> 
                 idents.extend(new_idents);
                 idents
             }
-            _ => Vec::new(),
+            Bracketed(b) => find_in_expression(&b.expr, name),
+            Unary(u) => find_in_expression(&u.expr, name),
+            IntLiteral(_) | Error(_) => Vec::new(),
         }
     }
 
